@@ -347,6 +347,23 @@ pub fn cases_for(spec: &FnSpec, cap: u64, thorough: bool) -> Vec<J> {
         // same runtime-typed arguments, but compiled under an environment that DECLARES their exact kinds
         // (so the call is type-checked like a call on literals, yet no argument is a compile-time constant)
         out.push(json!({"fn": spec.name, "mode": "typed", "args": rt_args.join(", "), "closure": cl, "event_src": ev, "kinds": args.iter().map(|(i, _)| spec.params[*i].1).collect::<Vec<u16>>()}));
+        // … and under an environment that only declares the ELEMENT kinds of collections (arrays / objects of
+        // unknown length), which is how values from split(), keys(), external schemas … are typed
+        if args.iter().any(|(_, t)| t.starts_with('[') || t.starts_with('{')) {
+            out.push(json!({"fn": spec.name, "mode": "typed-loose", "args": rt_args.join(", "), "closure": cl, "event_src": ev, "kinds": args.iter().map(|(i, _)| spec.params[*i].1).collect::<Vec<u16>>()}));
+        }
+        // mixed: the FIRST argument runtime-typed (collection of unknown length), every other argument a literal
+        if args.len() >= 2 && (args[0].1.starts_with('[') || args[0].1.starts_with('{')) {
+            let mixed: Vec<String> = args
+                .iter()
+                .enumerate()
+                .map(|(n, (i, t))| {
+                    let text = if n == 0 { ".a0".to_string() } else { t.clone() };
+                    if spec.params[*i].2 { text } else { format!("{}: {text}", spec.params[*i].0) }
+                })
+                .collect();
+            out.push(json!({"fn": spec.name, "mode": "typed-loose", "args": mixed.join(", "), "closure": cl, "event_src": [args[0].1.clone()], "kinds": [spec.params[args[0].0].1]}));
+        }
     };
     let base = if thorough { 12 } else { 4 };
     for idx in 0..total.max(1) {
@@ -419,7 +436,8 @@ pub fn run_case(w: &J) -> J {
     let name = w["fn"].as_str().unwrap_or("");
     let args = w["args"].as_str().unwrap_or("");
     let cl = w["closure"].as_str().unwrap_or("");
-    let typed = w["mode"] == "typed";
+    let loose = w["mode"] == "typed-loose";
+    let typed = w["mode"] == "typed" || loose;
     let runtime = w["mode"] == "runtime" || typed;
     let mut viol: Vec<J> = Vec::new();
     let mut push = |tag: &str, clause: &str, expected: String, observed: String| {
@@ -448,7 +466,7 @@ pub fn run_case(w: &J) -> J {
     let env = if typed {
         let mut c: vrl::value::kind::Collection<vrl::value::kind::Field> = vrl::value::kind::Collection::empty();
         for (n, v) in arg_values.iter().enumerate() {
-            c = c.with_known(format!("a{n}").as_str(), vrl::value::Kind::from(v));
+            c = c.with_known(format!("a{n}").as_str(), if loose { loosen(v) } else { vrl::value::Kind::from(v) });
         }
         ExternalEnv::new_with_kind(vrl::value::Kind::object(c), vrl::value::Kind::object(vrl::value::kind::Collection::any()))
     } else {
@@ -557,6 +575,23 @@ fn run_program_case(src: &str) -> J {
             viol.push(json!({"tag": "C04", "clause": "C04.run-panic", "expected": "running an accepted program does not panic", "observed": p}));
             json!({"status": "run-panic", "viol": viol})
         }
+    }
+}
+
+/// Kind of `v` with collections described only by the union of their element kinds (unknown length / keys).
+fn loosen(v: &Value) -> vrl::value::Kind {
+    use vrl::value::Kind;
+    use vrl::value::kind::Collection;
+    match v {
+        Value::Array(a) => {
+            let elem = a.iter().map(loosen).reduce(|x, y| x.union(y));
+            Kind::array(elem.map_or_else(Collection::empty, Collection::from_unknown))
+        }
+        Value::Object(o) => {
+            let elem = o.values().map(loosen).reduce(|x, y| x.union(y));
+            Kind::object(elem.map_or_else(Collection::empty, Collection::from_unknown))
+        }
+        other => Kind::from(other),
     }
 }
 
